@@ -35,7 +35,17 @@ pub fn strategy() -> BoxedStrategy<Case> {
             issue.alg = alg;
             issue.decoys = decoys;
             let n = mark(&issue.claims, &issue.strat).map(|t| t.hidden_paths().len()).unwrap_or(0);
-            let salts: Vec<String> = (0..n + spare).map(|i| format!("{}{}", pool[i % pool.len()], i)).collect();
+            let mut salts: Vec<String> = (0..n + spare).map(|i| format!("{}{}", pool[i % pool.len()], i)).collect();
+            // unusual but legitimate queue entries: the empty salt and a blank one (at most one of
+            // each, so that salts stay pairwise distinct)
+            if !salts.is_empty() && ch.first().map(|c| c % 8 == 0).unwrap_or(false) {
+                let i = (ch.get(1).copied().unwrap_or(0) as usize * salts.len()) >> 16;
+                salts[i] = String::new();
+                if salts.len() > 1 && ch.get(2).map(|c| c % 2 == 0).unwrap_or(false) {
+                    let j = (i + 1) % salts.len();
+                    salts[j] = " ".to_string();
+                }
+            }
             let selection = selection_for(&issue, &ch, SelOpts { allow_null: false });
             C16Case { issue, salts, selection }
         })
